@@ -38,13 +38,13 @@ func verifH_C13_flusher() {
 	lock := storage.VerifStoreLock(rs)
 	myTicker := verifNumTickers() - 1
 
-	var st verifStmt
+	var stmt verifStmt
 	switch kind {
 	case 4:
-		st = verifGenCreate("newt")
+		stmt = verifGenCreate("newt")
 	case 5:
 		t := db.tables[0]
-		st = verifStmt{kind: "select", table: t.name,
+		stmt = verifStmt{kind: "select", table: t.name,
 			run: func(rm RelationManager) error {
 				_, _, err := EvaluateSelect(sql.Select{
 					SelectList:      sql.SelectList{{ValueExpressionPrimary: sql.Asterisk{}}},
@@ -54,9 +54,9 @@ func verifH_C13_flusher() {
 			},
 			apply: func(db *verifDB) {}}
 	default:
-		st = verifStmtOfKind(db, "s", 1, kind)
+		stmt = verifStmtOfKind(db, "s", 1, kind)
 	}
-	verifTag("stmt", st.kind)
+	verifTag("stmt", stmt.kind)
 
 	inStatement, dirtied, logDone := false, false, false
 	ticks := 0
@@ -91,17 +91,36 @@ func verifH_C13_flusher() {
 			}
 		}
 	}
+	// every use of the page cache and of the store's bookkeeping is an access to
+	// state shared with the flusher: it must happen under the store's lock
+	// (shared for the session, exclusive for the flusher)
+	const st = "(*github.com/mk6i/mkdb/storage."
+	verifWatchCalls([]string{
+		st + "LRUCache).get", st + "LRUCache).set",
+		st + "fileStore).fetch", st + "fileStore).append", st + "fileStore).update", st + "fileStore).setCache",
+		st + "fileStore).incrLSN", st + "fileStore).incrementLastKey", st + "fileStore).setPageTableRoot", st + "fileStore).save",
+	}, func(fn string) {
+		if !inStatement {
+			return
+		}
+		if verifGoroutine() == 0 {
+			verifAssert(verifLockHeld(lock) >= 1, "session-touches-cache-under-the-lock")
+		} else {
+			verifAssert(verifLockHeld(lock) == 2, "flusher-holds-the-lock-exclusively")
+		}
+	})
 	inStatement = true
-	err = st.run(rs)
+	err = stmt.run(rs)
 	logDone = true
 	inStatement = false
 	storage.VerifPoint = nil
+	verifWatchCalls(nil, nil)
 	verifAssert(err == nil, "statement-ok")
 	// let the flusher finish whatever it was waiting for, then a regular tick
 	verifYield()
 	verifTick(myTicker)
 	if err == nil {
-		st.apply(db)
+		stmt.apply(db)
 	}
 	verifCheckDB(rs, db, "after/")
 	verifAssert(rs.Close() == nil, "close-ok")
